@@ -159,6 +159,8 @@ class World:
                 log(self.name, 'uses', self.io.name, bool(self.io.initModuleDone), 'init')
 
         class Pin(self.Pinata):
+            src = C.Attached(mandatory=False)       # e.g. the communicator the scan talks through
+
             def earlyInit(self):
                 log(self.name, 'early')
                 super().earlyInit()
@@ -176,6 +178,8 @@ class World:
                 log(self.name, 'shutdown')
 
             def scanModules(self):
+                if self.src is not None:
+                    log(self.name, 'scan-uses', self.src.name)
                 for i in range(2):
                     yield f'{self.name}_sub{i}', {'cls': M, 'description': 'scanned'}
         class Mid(self.HasIO, M):
@@ -229,6 +233,15 @@ class World:
             scen['shared_io'] = rng.choice([2, 3])
         elif q < 0.35:
             scen['pinata'] = True
+            scen['pinata_first'] = rng.random() < 0.5
+            if rng.random() < 0.6:
+                # a module attaches the scanning module itself (and may use it while it initialises)
+                m = rng.choice(mods)
+                m['a2'] = 'pin'
+                m['use'] = rng.choice(['init', 'early', 'never'])
+            if rng.random() < 0.4:
+                # (a plain module only if nobody attaches the scanning module: no cycles through the scan)
+                scen['pinata_src'] = 'pin2' if any(m.get('a2') == 'pin' for m in mods) else rng.choice(['pin2', mods[0]['name']])
         if rng.random() < 0.15:
             rng.choice(mods)['own_start'] = rng.choice([[90, 60], [90, 20], [40, 100], [5, 20]])
         if rng.random() < 0.2:
@@ -243,6 +256,9 @@ class World:
             if rng.random() < 0.6:
                 scen['shared_io'] = rng.choice([2, 3])
                 scen.pop('pinata', None)
+                for m in mods:
+                    if m.get('a2') == 'pin':
+                        m['a2'] = None
         return scen
 
     def gen_barrier(self, rng):
@@ -276,6 +292,13 @@ class World:
                             'uri': 'fake://shared'}
         if scen.get('pinata'):
             cfg['pin'] = {'cls': self.Pin, 'description': 'scanner'}
+            if scen.get('pinata_src'):
+                # the scan uses another module: a second scanning module ('pin2', declared after 'pin') or a plain one
+                cfg['pin']['src'] = scen['pinata_src']
+                if scen['pinata_src'] == 'pin2':
+                    cfg['pin2'] = {'cls': self.Pin, 'description': 'second scanner'}
+            if scen.get('pinata_first'):
+                cfg = {'pin': cfg.pop('pin'), **cfg}       # declared before its users / after them
         if scen.get('io_chain'):
             # leaf(s) -> mid -> root: mid is polled through root's thread and owns the poll thread of its own users
             chain = {'croot': {'cls': self.IOMod, 'description': 'communicator at the end of an io chain'},
@@ -467,6 +490,15 @@ class World:
                 if len(w) != 1 or w[0] > (p[0] if p else 10 ** 9) or mine[w[0]][4] != m['x']:
                     r.violation('C15/configured-write-order', f'{m["name"]}: writes at {w}, first poll event at {p[:1]}', case)
                     return
+        # ---- dynamically scanned modules belong to the node wherever the scanning module is declared and whoever attaches it
+        if scen.get('pinata'):
+            r.count('pinata_nodes')
+            missing = [n for n in ('pin_sub0', 'pin_sub1') + (('pin2_sub0', 'pin2_sub1') if scen.get('pinata_src') == 'pin2' else ()) if n not in names]
+            if missing:
+                users = [m['name'] for m in scen['mods'] if 'pin' in (m.get('a1'), m.get('a2'))]
+                r.violation('C15/scanned-modules-missing', f'{missing} were never created (scanning module declared {"first" if scen.get("pinata_first") else "last"}, '
+                            f'attached by {users})', case)
+                return
         # ---- io chains: every module of the chain is polled (by the thread of the communicator it talks through)
         if scen.get('io_chain'):
             r.count('io_chain_nodes')
